@@ -265,6 +265,27 @@ pub fn run(a: &Args) -> Report {
     rep.sample(|| json!({"exhaustive_single_segments": {"alphabet": ALPHA, "max_len": maxlen}}));
     rep.maxes.insert("exhaustive_max_len".into(), maxlen as u64);
 
+    // 1b. every single byte value 0..=127 (and a handful of non-ASCII characters) in head, tail and raw-head position
+    {
+        let mut r1b = Report::default();
+        let mut chars: Vec<char> = (0u8..128).map(|b| b as char).collect();
+        chars.extend(['\u{80}', '\u{a0}', '\u{aa}', '\u{b2}', '\u{e9}', '\u{2160}', '\u{ff11}', '\u{1d7d8}', '\u{200d}', '\u{feff}']);
+        for c in chars {
+            for form in 0..5 {
+                let s = match form {
+                    0 => format!("{}", c),
+                    1 => format!("x{}", c),
+                    2 => format!("{}x", c),
+                    3 => format!("r#{}", c),
+                    _ => format!("r#x{}y", c),
+                };
+                check_segments(&[leak(s)], &mut r1b, "char-sweep");
+            }
+            r1b.count("char_sweep_characters", 1);
+        }
+        rep.merge(r1b);
+    }
+
     // 2. all segment lists of length <= 3 over the pool
     let pool = pool();
     let n = pool.len() as u64;
